@@ -9,6 +9,9 @@
 //!          sync and async bgzf writers vs NV.Async.Writer (a_blocks / a_results)
 //!   abam   <data> <sizes> <with_pending> <chunk>   (c16_model_rw.rs) BAM record framing (read_exact_or_eof + take/read_to_end)
 //!          of the real sync and async bam readers over a raw record stream vs NV.Io.Run / NV.Async.ReadExact
+//!   agff / afq / afa / awl   (c16_lines.rs) async gff line reader, fastq record reader, fasta read_sequence over
+//!          tokio BufReader + scripted source vs NV.Async.Lines; async fasta / fastq writers over a scripted sink
+//!          vs NV.Async.WriteAll
 //! Implementation-only differential oracles (sync path vs async path on the same input, under a
 //! poll script): see `c16_fmt.rs` for the format-level kinds.
 //!   bgzfr  <file> <ops> <mode> <seed> <workers>     bgzf reader op transcript (bytes, vpos, seek)
@@ -26,6 +29,8 @@ use tokio::io::{AsyncBufReadExt, AsyncReadExt, AsyncWriteExt};
 mod c16_adversary;
 #[path = "../shared/c16_fmt.rs"]
 mod c16_fmt;
+#[path = "../shared/c16_lines.rs"]
+mod c16_lines;
 #[path = "../shared/c16_model_rw.rs"]
 mod c16_model_rw;
 
@@ -907,6 +912,8 @@ fn generate(rng: &mut Rng, tier: &str, w: &mut CaseWriter) {
         c16_model_rw::gen_abam(rng, w);
     }
     c16_fmt::generate(rng, tier, w);
+    // new kinds last: the case streams of the older kinds stay as they were
+    c16_lines::generate(rng, tier, w);
 }
 
 fn run(c: &Case) -> Obs {
@@ -917,7 +924,7 @@ fn run(c: &Case) -> Obs {
         "ardr" => c16_model_rw::run_ardr(c),
         "awr" => c16_model_rw::run_awr(c),
         "abam" => c16_model_rw::run_abam(c),
-        k => match c16_fmt::run(c) {
+        k => match c16_lines::run(c).or_else(|| c16_fmt::run(c)) {
             Some(o) => o,
             None => Obs::fail("-", "harness-unknown-kind", k),
         },
